@@ -1066,6 +1066,9 @@ func (e *Evaluator) evalRules(rules []*Rule) error {
 		match := true
 		if rule.Pattern != nil {
 			cell, err := e.evalExpr(rule.Pattern)
+			if err == errNext {
+				return nil
+			}
 			if err != nil {
 				return err
 			}
@@ -1173,6 +1176,10 @@ func EvalProgram(progSrc string, files []InputFile, rootSelectors []string, stdo
 			if err == errExit {
 				return &ev, nil
 			}
+			if err == errNext {
+				// outside the pattern rules next just ends the rule
+				continue
+			}
 			return &ev, err
 		}
 	}
@@ -1224,6 +1231,9 @@ func EvalProgram(progSrc string, files []InputFile, rootSelectors []string, stdo
 						if err == errExit {
 							return &ev, nil
 						}
+						if err == errNext {
+							continue
+						}
 						return &ev, err
 					}
 				}
@@ -1244,6 +1254,9 @@ func EvalProgram(progSrc string, files []InputFile, rootSelectors []string, stdo
 						if err == errExit {
 							return &ev, nil
 						}
+						if err == errNext {
+							continue
+						}
 						return &ev, err
 					}
 				}
@@ -1257,6 +1270,10 @@ func EvalProgram(progSrc string, files []InputFile, rootSelectors []string, stdo
 		if err := ev.evalStatement(rule.Body); err != nil {
 			if err == errExit {
 				return &ev, nil
+			}
+			if err == errNext {
+				// outside the pattern rules next just ends the rule
+				continue
 			}
 			return &ev, err
 		}
